@@ -226,6 +226,39 @@ theorem roundtrip_request (a : AEAD) {p : Packet} (hwf : p.WF) (hp : p.packetTyp
     · cases henc
   | _ => cases hp
 
+/-! ### 3. the transports' receive buffers (`renet_netcode`: `NetcodeServerTransport.buffer`,
+`NetcodeClientTransport.buffer`; sizes read from the source by `tools/gen_consts.py`)
+
+`UdpSocket::recv_from` truncates a datagram that is longer than the buffer it is given, and a truncated
+datagram fails authentication, so the peer's traffic would be dropped every tick. Every datagram either
+side emits fits the buffer of the transport that receives it. -/
+
+theorem transport_buffers_hold_max_datagram :
+    Netcode.C.NETCODE_MAX_PACKET_BYTES ≤ RenetVerif.C.TRANSPORT_SERVER_BUFFER ∧
+    Netcode.C.NETCODE_MAX_PACKET_BYTES ≤ RenetVerif.C.TRANSPORT_CLIENT_BUFFER := by decide
+
+/-- the largest datagram that really occurs (a 1300-byte payload under the largest sequence number,
+1325 bytes) fits both receive buffers -/
+theorem transport_buffers_hold_largest_payload_datagram (a : AEAD) (hl : a.Laws) (p : Bytes)
+    (hp : p.length = Netcode.C.NETCODE_MAX_PAYLOAD_BYTES) (proto seq : Nat) (key : Bytes) :
+    (sealedBytes a (.payload p) proto seq key).length ≤ RenetVerif.C.TRANSPORT_SERVER_BUFFER ∧
+    (sealedBytes a (.payload p) proto seq key).length ≤ RenetVerif.C.TRANSPORT_CLIENT_BUFFER :=
+  ⟨Nat.le_trans (payload_encodes a hl p (Nat.le_of_eq hp) proto seq key).2.2 transport_buffers_hold_max_datagram.1,
+   Nat.le_trans (payload_encodes a hl p (Nat.le_of_eq hp) proto seq key).2.2 transport_buffers_hold_max_datagram.2⟩
+
+/-- what a client emits fits the server transport's receive buffer -/
+theorem client_datagram_fits_server_buffer (a : AEAD) (hl : a.Laws) {c c' : NetcodeClient} {payload out : Bytes}
+    {addr : Addr} (h : NetcodeClient.generatePayloadPacket a c payload = .ok ((addr, out), c')) :
+    out.length ≤ RenetVerif.C.TRANSPORT_SERVER_BUFFER :=
+  Nat.le_trans (client_generate_payload_packet a hl h) transport_buffers_hold_max_datagram.1
+
+/-- what the server emits for a client fits the client transport's receive buffer -/
+theorem server_datagram_fits_client_buffer (a : AEAD) (hl : a.Laws) {s s' : NetcodeServer} {cid : Nat}
+    {payload out : Bytes} {addr : Addr}
+    (h : NetcodeServer.generatePayloadPacket a s cid payload = .ok ((addr, out), s')) :
+    out.length ≤ RenetVerif.C.TRANSPORT_CLIENT_BUFFER :=
+  Nat.le_trans (server_generate_payload_packet a hl h) transport_buffers_hold_max_datagram.2
+
 /-! ### non-vacuity -/
 section examples
 
